@@ -18,6 +18,12 @@ CLAIMED.update({
          "bounds: one record + one follow-up call, |local|<=2; xsd:double/dateTime/boolean lexicals and times from catalogues (dateutil/float conversions run concretely); ints via contract int(str(n))==n; not claimed: multi-entity membership compatibility path"),
  "C12": ("bounded model checking of state isolation: after each of 9 deriving operations a heap check shows no mutable container is reachable from both sides, and for each of 6 follow-up mutations on either side z3-decided comparison shows the other side's content, order, namespaces and default namespace unchanged, on every path", "4/C12",
          "bounds: source of 2 records (+bundle of 2), |local|<=2, symbolic mutation operands; the shared NamespaceManager of unified() was found and repaired (fix: commit)"),
+ "C09": ("bounded model checking of flattened/update/add_bundle/bundle: for sequences of 1-2 (quick) / 3 (thorough) operations on two documents with symbolic default namespaces, prefix URIs and bundle identifiers, z3 shows the multiset identities on strict URI-level content, the refusal cases and 'other unchanged' on every path", "4/C09",
+         "bounds: 2 records per document (+1 bundle record), |uri|<=3..4; first document's URIs fixed, second document's symbolic; structural choices enumerated as shards (pairwise-covering subset for two-step sequences in quick)"),
+ "C01": ("bounded model checking of decode(encode(d)) at PROV-JSON container level with symbolic contents (all value kinds, name classes, namespace modes, 18 kinds x masks, repeated identifiers, bundles), z3 deciding strict equality on every path; each path witness is then serialised to real JSON text under all 8 dump options and read back on the unmodified build", "4/C01",
+         "container level is for-all within bounds; the json text layer (C code) is crossed with one solver-chosen representative per path plus float/datetime catalogues; two known findings (namespace-URI/prefix ambiguity, bundle shadowing a document prefix)"),
+ "C10": ("an independent PROV-JSON reader written from the specification is run symbolically on the emitted container (contents symbolic) and must recover the same strict content and accept the structure; on replay the real text under all dump options is read by the same reader", "4/C10",
+         "JSON part only so far (XML part pending); reader = oracles/provjson_reader.py, shares no code with prov"),
 })
 NA = {}
 props = [json.loads(l) for l in open(os.path.join(V, "properties.jsonl"))]
